@@ -3,7 +3,7 @@ import copy
 import math
 import struct
 
-from .core import Prop, MachineryBroken, cq_N, cq_list, cq_opt, cq_bool, cq_bytes
+from .core import Prop, MachineryBroken, cq_N, cq_list, cq_opt, cq_bool
 
 TWO32 = 1 << 32
 
@@ -44,11 +44,42 @@ class C09(Prop):
     technique = ("Coq proof about a statement-by-statement model of PayloadWriter (byte-list state machine, panics explicit) against an "
                  "independent DogStatsD message parser and framing/size/conservation clauses; differential correspondence on op sequences "
                  "through the cfg(metrics_verif) verif_driver hook")
-    rule = ""
-    level_text = ""
-    level_note = ""
-    assumptions = []
-    trusted_extra = []
+    rule = ("random op sequences (1..11 ops) on ONE writer: write_counter / write_gauge / write_histogram / write_distribution and "
+            "payloads() drains (full, partial k=0..4, repeated = flush cycles); max_payload_len in {0..80 (most), 81..400, 1432, 8192, "
+            "rarely 2^32-1 / 2^32 / 2^32+5}; length prefix on/off; prefix none / 0..2 / 1..4 / 5..24 bytes; 0..5 global labels; names of "
+            "length 0..max+8; 0..4 own labels incl. bare tags and empty keys; histogram value lists 0..300 (thorough: ..3000) from a pool of "
+            "floats whose ryu renderings are 3..24 bytes (extremes, subnormals, NaN, +-inf, random bit patterns); sample rate none / "
+            "0.5 / 1.0 / 1e-9 / ...; 1 case in 5 draws strings from an adversarial alphabet with the delimiters : | , # @ \\n T = and "
+            "multi-byte UTF-8. A case is non-trivial if a drain yielded at least one payload or a write dropped a point; distinct = "
+            "distinct (case, outputs). Compared per op: WriteResult (payloads_written, points_dropped), Payloads::len(), every payload "
+            "byte string, panic.")
+    level_text = ("Theorems (Coq, all op sequences, all max < 2^32, both framing modes, all prefixes/labels/value strings): from any state "
+                  "satisfying the invariant Winv no operation panics and Winv is preserved, also by rejected writes and partial drains "
+                  "(C09_total, C09_total_sequences); every yielded payload is LE32(|body|)++body (or body) with |body| <= max "
+                  "(C09_len_bound, C09_framing); a drain yields exactly the first k committed frames in order "
+                  "(C09_drain_yields_committed); one write commits the renderings of the expected message over a split of exactly the "
+                  "values whose single-value message fits, and payloads_written/points_dropped count them (C09_point_conservation, "
+                  "C09_write_result_meets_spec); the rendering has the declared length and is read back by the independent parser under "
+                  "delimiter-freeness (C09_message_roundtrip, C09_emitted_message_roundtrip). The code as found is refuted clause by "
+                  "clause (C09_*_refuted_before_fix_*). The model is tied to /repo by running the real PayloadWriter and the model on "
+                  "the same generated op sequences each run, byte for byte.")
+    level_note = ("PARTIAL: C09_spec_ok_on_model_partial proves, for every case, no panic, one output per op and the framing/size clause of "
+                  "spec_ok on every yielded payload; the WriteResult clause is proved per write. The message/conservation clause is proved "
+                  "per write call (bodies committed = renderings of a split of the kept values; parser round trip) but its composition "
+                  "with the executable checker's pending-payload bookkeeping (Spec.distribute) over whole sequences is not proved, so "
+                  "`forall c, spec_ok c (run_case c) = true` is not a theorem; spec_ok is evaluated on every implementation output of "
+                  "every run instead. Trusted: Coq kernel; hand-written model tied by differential runs; itoa/ryu number formatting "
+                  "(the driver echoes the strings, python checks that they read back to the same u64/f64); usize arithmetic other than "
+                  "the subtraction in current_len assumed not to wrap; names/labels valid UTF-8 (Rust strings). Names, tags or prefixes "
+                  "containing the delimiter bytes : | , # newline are emitted unescaped by the writer; the message clause is stated "
+                  "under delimiter-freeness (wf_msg) and is vacuous for such inputs.")
+    assumptions = ["itoa/ryu render the numbers; the rendered strings are non-empty and are passed to the model as data (python checks that each reads back to the same value)",
+                   "buffer lengths stay below 2^64 (usize additions do not wrap)",
+                   "harness built with overflow checks: the usize subtraction in current_len panics on underflow (as modelled)",
+                   "message clause only for delimiter-free names/tags/prefix (wf_msg)"]
+    trusted_extra = ["itoa 1.x / ryu 1.x number formatting (exercised, echoed by the driver, not modelled)",
+                     "Codec.ux (primitive-integer packed byte literals, used only to transport test data into Coq; no theorem depends on it)",
+                     "metrics::Key / Label accessors (name(), labels(), key(), value()) return the strings they were built from"]
 
     # ------------------------------------------------------------------ generator
     def _str(self, rng, lo, hi, adversarial):
@@ -98,7 +129,7 @@ class C09(Prop):
                 name_hi = rng.weighted([(6, 6), (2, min(mx, 60)), (1, min(mx + 8, 120))])
             else:
                 name_hi = rng.weighted([(8, 12), (1, 60), (1, 0)])
-                if rng.chance(1, 40):
+                if rng.chance(1, 40) and mx < 10000:
                     name_hi = mx + 8
             name = self._str(rng, 0 if rng.chance(1, 10) else min(1, name_hi), name_hi, adversarial)
             labels = self._labels(rng, 4, adversarial)
@@ -147,7 +178,7 @@ class C09(Prop):
             else:
                 toks.append("%s:%s:%s:%s:%s" % (o[0], hexs(o[1]), self._lab(o[2]), "-" if o[3] is None else "%x" % o[3],
                                                 "-" if not o[4] else ",".join("%x" % v for v in o[4])))
-        return "%d %d %s %s | %s" % (c["max"], c["lp"], "-" if c["prefix"] is None else hexs(c["prefix"]),
+        return "%d %d %s %s | %s" % (c["max"], c["lp"], "-" if c["prefix"] is None else "+" + hexs(c["prefix"]),
                                      self._lab(c["glabels"]), " ".join(toks))
 
     @staticmethod
@@ -212,10 +243,13 @@ class C09(Prop):
     # ------------------------------------------------------------------ Coq terms
     @staticmethod
     def _hx(h):
-        return '(hx "%s")' % h
+        """hex string -> Coq term of type list N (Codec.ux: 7 bytes per primitive-int literal)"""
+        if not h:
+            return "[]"
+        return "(ux [%s]%%uint63)" % "; ".join("0x1" + h[i:i + 14] for i in range(0, len(h), 14))
 
     def _cq_labels(self, ls):
-        return cq_list(["(%s, %s)" % (cq_bytes(k), cq_bytes(v)) for k, v in ls])
+        return cq_list(["(%s, %s)" % (self._hx(hexs(k)), self._hx(hexs(v))) for k, v in ls])
 
     def coq_case(self, c):
         fmt = c.get("fmt") or [None] * len(c["ops"])
@@ -227,14 +261,14 @@ class C09(Prop):
             if fm is None:   # not executed (after a panic): strings irrelevant
                 fm = dict(vs=[""] * (1 if o[0] in "cg" else len(o[4])), aux="" if (o[4] if o[0] in "cg" else o[3]) is not None else None)
             if o[0] in "cg":
-                ops.append("WScalar %s %s %s %s %s" % ("Counter" if o[0] == "c" else "Gauge", cq_bytes(o[1]), self._cq_labels(o[2]),
+                ops.append("WScalar %s %s %s %s %s" % ("Counter" if o[0] == "c" else "Gauge", self._hx(hexs(o[1])), self._cq_labels(o[2]),
                                                       self._hx(fm["vs"][0]), cq_opt(None if o[4] is None else self._hx(fm["aux"]))))
             else:
-                ops.append("WHist %s %s %s %s %s" % ("Hist" if o[0] == "h" else "Dist", cq_bytes(o[1]), self._cq_labels(o[2]),
+                ops.append("WHist %s %s %s %s %s" % ("Hist" if o[0] == "h" else "Dist", self._hx(hexs(o[1])), self._cq_labels(o[2]),
                                                     cq_list([self._hx(v) for v in fm["vs"]]),
                                                     cq_opt(None if o[3] is None else self._hx(fm["aux"]))))
         return "{| k_max := %s; k_lp := %s; k_prefix := %s; k_glabels := %s; k_ops := %s |}" % (
-            cq_N(c["max"]), cq_bool(c["lp"]), cq_opt(None if c["prefix"] is None else cq_bytes(c["prefix"])),
+            cq_N(c["max"]), cq_bool(c["lp"]), cq_opt(None if c["prefix"] is None else self._hx(hexs(c["prefix"]))),
             self._cq_labels(c["glabels"]), cq_list(ops))
 
     def coq_out(self, c, out):
